@@ -101,6 +101,10 @@ func TestReproFlushWindows(t *testing.T) {
 	for _, w := range []string{"inverted", "metric", "dictionary-like", "dictionary-regex", "dictionary-collect"} {
 		scenarioFlushWindow(res, dir, w)
 	}
+	scenarioGroupingFlushWindow(res, dir)
+	if res.Counters["grouping_lookups_straddling_a_completed_flush"] != 1 {
+		t.Errorf("the group-by lookup did not straddle the flush")
+	}
 	for _, v := range res.Violations {
 		t.Errorf("%s: %s", v.Class, v.Message)
 	}
